@@ -4,6 +4,6 @@ CONSTANTS
   MaxOps = 6
   E = 1
 SPECIFICATION Spec
-INVARIANTS Budget CumSumMeaning Laws RuleLemmas
+INVARIANTS Budget CumSumMeaning Laws RuleLemmas BigLemmas
 PROPERTIES NeutralAndMonotone Progress
 CHECK_DEADLOCK FALSE
